@@ -113,10 +113,19 @@ def case(job):
                 problems.append((f"reported as adjusted to {c['after']} but the written file sets it to {rc[2] if rc else None!r}", e['trigger'], e))
         # rules needing attention: listed and unchanged
         listed = [s_ for f_, s_ in st['listed']]
+        seen_sel = {}
         for e in expected:
+            pos = seen_sel.get(e['selector'], 0); seen_sel[e['selector']] = pos + 1
             if e['cat'] == 'attention':
                 if e['selector'] not in listed and total == n and exp_counts['attention'] == st['failed']:
                     problems.append((f"rule {e['selector']!r} needs attention but is not listed", e['trigger'], e))
+                # left unchanged: the text colour the written file gives the rule (directly or through its custom property) is the input's
+                if exp_counts['attention'] == st['failed'] and total == n:
+                    occ = [d_ for s_, d_ in orules if s_ == e['selector'] and any(x.lower_name == 'color' for x in d_)]
+                    if pos < len(occ):
+                        rc = H.rule_colours(occ[pos], oprops, dbg)
+                        if rc is not None and (rc[0], rc[2]) != (e['raw_t'], e['text']):
+                            problems.append((f"rule {e['selector']!r} needs attention but its text colour changed {e['raw_t']!r} ({e['text']}) -> {rc[0]!r} ({rc[2]})", e['trigger'], e))
     ncards = len(cards)
     if trigs[0] == 'var-shared':
         problems = [(k, trigs[0], d) for k, t, d in problems]
@@ -138,6 +147,7 @@ def kind_of(msg):
     if 'differs from the Python API' in msg: return 'reported-differs-from-api'
     if 'has ratio' in msg: return 'reported-below-target'
     if 'not listed' in msg: return 'attention-not-listed'
+    if 'its text colour changed' in msg: return 'attention-rule-changed'
     return re.sub(r'[^a-z ]', '', msg.lower())[:40].strip().replace(' ', '-')
 
 
@@ -234,7 +244,7 @@ def run(args):
     nsheets = 140 if args.tier == 'quick' else 4000
     sheets = H.gen_sheets(20261003, nsheets // 2) + H.gen_sheets(args.seed + 8, nsheets - nsheets // 2)
     sheets += threshold_band_sheets(args.seed, 12 if args.tier == 'quick' else 200)
-    jobs = [(n, c, f, H.SETTINGS[i % len(H.SETTINGS)]) for i, (n, c, f) in enumerate(sheets)]
+    jobs = [(n, c, f, H.SETTINGS[i % len(H.SETTINGS)]) for i, (n, c, f) in enumerate(sheets)] + H.core_jobs()
     t0 = time.time()
     with mp.get_context('fork').Pool(16) as pool:
         res = pool.map(case, jobs, chunksize=2)
